@@ -379,7 +379,7 @@ func alnExhaustivePlan(r *obs.Run) (k2, k3 [][]byte) {
 func alnCases(r *obs.Run) int {
 	k2, k3 := alnExhaustivePlan(r)
 	ex := 40*len(k2) + 40*len(k3)
-	return r.Share(ex) + r.Share(r.Pick(3000, 100000)) + r.Share(r.Pick(600, 20000))
+	return r.Share(ex) + r.Share(r.Pick(10000, 100000)) + r.Share(r.Pick(3000, 20000))
 }
 
 func alnCaseFn(which string) func(r *obs.Run, i int) {
@@ -415,7 +415,7 @@ func alnCaseFn(which string) func(r *obs.Run, i int) {
 			return
 		}
 		i -= myEx
-		nRandom := r.Share(r.Pick(3000, 100000))
+		nRandom := r.Share(r.Pick(10000, 100000))
 		if i < nRandom {
 			alnRandomCase(r, which)
 			return
@@ -523,6 +523,7 @@ func alnRandomCase(r *obs.Run, which string) {
 	}
 	x := gen(ln())
 	var y []byte
+	gapLetters := which == "C08" && rng.Intn(8) == 0 // the gap letter is a letter of a gapped alphabet like any other
 	if rng.Intn(2) == 0 { // related sequences: mutate a window of x
 		a := rng.Intn(len(x))
 		b := a + 1 + rng.Intn(len(x)-a)
@@ -544,6 +545,22 @@ func alnRandomCase(r *obs.Run, which string) {
 	} else {
 		y = gen(ln())
 	}
+	if gapLetters {
+		for _, sq := range [][]byte{x, y} {
+			for k := range sq {
+				if rng.Intn(6) == 0 {
+					sq[k] = '-'
+				}
+			}
+			if rng.Intn(2) == 0 {
+				sq[len(sq)-1] = '-'
+			}
+			if rng.Intn(3) == 0 {
+				sq[0] = '-'
+			}
+		}
+		r.Count("cases_with_gap_letters_in_the_sequences", 1)
+	}
 	alg := alnAlgs[rng.Intn(len(alnAlgs))]
 	open := 0
 	if alnAffine(alg) {
@@ -556,6 +573,18 @@ func alnRandomCase(r *obs.Run, which string) {
 	nt := alnCheck(r, which, c, aa.a, M)
 	r.Note(fmt.Sprintf("rnd/%s/%s/%d/%s/%s/%x", aa.name, alg, open, x, y, hashBytes([]byte(fmt.Sprint(M)))), nt)
 	r.Count("random_cases", 1)
+	if rng.Intn(4) == 0 { // the caller edits the same matrix object in place and aligns again: nothing may remember the old scores
+		n := aa.a.Len()
+		g := -rng.Intn(7)
+		for i := 1; i < n; i++ {
+			M[i][0], M[0][i] = g, g-rng.Intn(2)
+		}
+		M[1+rng.Intn(n-1)][1+rng.Intn(n-1)] += 1 + rng.Intn(3)
+		c2 := c
+		c2.MatrixID = id + "/edited-in-place-after-a-first-call"
+		alnCheck(r, which, c2, aa.a, M)
+		r.Count("second_calls_after_editing_the_matrix_in_place", 1)
+	}
 	if r.WantSample() && len(x) < 20 && len(y) < 20 {
 		out := alnRun(alnAligner(alg, M, open), alnMkSeq(x, aa.a, false, rng), alnMkSeq(y, aa.a, false, rng))
 		cc := c
@@ -620,10 +649,31 @@ func alnIllTyped(r *obs.Run) {
 			}
 		}
 	case 2: // different alphabets
-		other := alphabet.RNAgapped
-		ref, query = alnMkSeq(x, aa.a, false, rng), alnMkSeq([]byte("acgu"), other, false, rng)
-		desc = "different alphabets"
-		run()
+		switch rng.Intn(3) {
+		case 0:
+			other := alphabet.RNAgapped
+			ref, query = alnMkSeq(x, aa.a, false, rng), alnMkSeq([]byte("acgu"), other, false, rng)
+			desc = "different alphabets"
+		case 1: // an alphabet with the very same letters that is not the same alphabet (other molecule type and ambiguity letter)
+			twin, err := alphabet.NewAlphabet(aa.a.Letters()[:aa.a.Len()], feat.Undefined, aa.a.Gap(), aa.a.Letter(1), false)
+			if err != nil {
+				r.Inconclusive("harness: cannot build the twin alphabet: " + err.Error())
+				return
+			}
+			ref, query = alnMkSeq(x, aa.a, false, rng), alnMkSeq(y, twin, false, rng)
+			desc = "different alphabets with identical letters"
+			if rng.Intn(2) == 0 {
+				ref, query = alnMkSeq(x, twin, false, rng), alnMkSeq(y, aa.a, false, rng)
+			}
+		default: // one sequence has no alphabet at all
+			q := linear.NewSeq("q", alphabet.BytesToLetters(append([]byte(nil), y...)), nil)
+			ref, query = alnMkSeq(x, aa.a, false, rng), q
+			desc = "query without an alphabet"
+		}
+		for _, a := range alnAlgs {
+			alg = a
+			run()
+		}
 	case 3: // Letters vs QLetters
 		ref, query = alnMkSeq(x, aa.a, false, rng), alnMkSeq(y, aa.a, true, rng)
 		if rng.Intn(2) == 0 {
@@ -633,6 +683,11 @@ func alnIllTyped(r *obs.Run) {
 		run()
 	case 4: // ragged or otherwise non-square matrix
 		row := rng.Intn(len(M))
+		if rng.Intn(2) == 0 { // the matrix object was used, well-formed, just before
+			for _, a := range alnAlgs {
+				alnRun(alnAligner(a, M, open), alnMkSeq(x, aa.a, false, rng), alnMkSeq(y, aa.a, false, rng))
+			}
+		}
 		switch rng.Intn(5) {
 		case 0:
 			M[row] = M[row][:len(M[row])-1-rng.Intn(2)]
